@@ -30,7 +30,7 @@ theorem noLive_of_key {P : Pods} {s : State} {ip : IP} {r : Rec} (hs : Safe P s)
   obtain ⟨hd, hmem, hip⟩ := hm
   obtain ⟨r', h1, h2, _⟩ := hs.own q hq hd hmem
   rw [hip, hg] at h1; cases h1
-  exact hk ⟨q, hq, h2.symm⟩
+  exact hk (Or.inl ⟨q, hq, h2.symm⟩)
 
 theorem uidZero_newOK {P : Pods} (n : Option Rec) (_h : uidZero n) : ∀ r, n = some r → NewOK P r :=
   fun _ _ => trivial
@@ -46,7 +46,7 @@ theorem Inv.step_of_chg_key {s s' : State} (h : Inv s) (k : Key) (hk : ¬ LiveKe
   · exact fun n hn => uidZero_newOK n hn
 
 theorem Inv.quiet {s s' : State} (h : Inv s) (q : QuietStep s s') : Inv s' :=
-  h.of_fields q.frame.pools q.alloc q.free q.store q.frame.pods q.frame.vPods q.frame.events q.frame.nextUid
+  h.of_fields q.frame.pools q.alloc q.free q.store q.frame.pods q.frame.vPods q.frame.events q.frame.nextUid q.frame.admin
 
 /-- the pod of a pending event belongs to no live pod: with the UID guard, delivering it cannot touch a live bound
     pod's address -/
@@ -60,19 +60,20 @@ theorem unbind_spec (s : State) (pod : Pod) (h : Inv s) (huid : pod.uid ≠ 0)
   · exact ⟨h, Frame.refl s, UnassignsWithin.refl s _⟩
   · rename_i hguard
     have hnl : ¬ LiveKey s.pods (keyOf pod) := by
-      rintro ⟨q, hq, hk⟩
-      apply hguard
-      obtain ⟨hd, hmem⟩ := List.exists_mem_of_ne_nil _ hq.2.2
-      obtain ⟨r, h1, h2, h3⟩ := h.safe.own q hq hd hmem
-      rw [List.any_eq_true]
-      refine ⟨hd.ip, mem_ipsOfKey_of_get h1 (h2.trans hk), ?_⟩
-      rw [h1]
-      have hq0 : q.uid ≠ 0 := (h.podsWF _ q hq.1).2.1
-      have hne : q.uid ≠ pod.uid := by
-        intro e
-        have := hdead _ q hq.1 e
-        rw [hq.2.1] at this; cases this
-      simp [h3, hq0, huid, hne]
+      rintro (⟨q, hq, hk⟩ | hadm)
+      · apply hguard
+        obtain ⟨hd, hmem⟩ := List.exists_mem_of_ne_nil _ hq.2.2
+        obtain ⟨r, h1, h2, h3⟩ := h.safe.own q hq hd hmem
+        rw [List.any_eq_true]
+        refine ⟨hd.ip, mem_ipsOfKey_of_get h1 (h2.trans hk), ?_⟩
+        rw [h1]
+        have hq0 : q.uid ≠ 0 := (h.podsWF _ q hq.1).2.1
+        have hne : q.uid ≠ pod.uid := by
+          intro e
+          have := hdead _ q hq.1 e
+          rw [hq.2.1] at this; cases this
+        simp [h3, hq0, huid, hne]
+      · rw [keyOf_not_admin] at hadm; cases hadm
     have qs := unassignAll_quiet (ipsOfKey s (keyOf pod)) s
     have hu : Inv (unassignAll s (ipsOfKey s (keyOf pod))).1 := h.quiet qs
     have lg : UnassignsWithin s (unassignAll s (ipsOfKey s (keyOf pod))).1 (NoLive s.pods) := by
